@@ -258,7 +258,14 @@ class SourceSemantics:
             k = self.stmt(s, k, env)
         return k
 
-    def _op_nodes(self, op: dict, k: int) -> int:
+    def _op_nodes(self, op: dict, k: int, in_ctx: bool = False) -> int:
+        if op["name"] in T.STOP_OPS and not (in_ctx or op.get("ctx")):
+            # an operation that ends the flow of the entity that runs it (Destroy, JumpCommon, ...)
+            ev = self._op_event(op)
+            return self.g.new("stop", ev)
+        # ... run on ANOTHER entity (inline context / with-block) it is an ordinary statement of this routine: compiler
+        # (does_op_end_control_flow) and decompiler (graph building) both say that the op after a context op never
+        # ends the control flow
         n = self.g.new("op", self._op_event(op), [k])
         if op.get("ctx"):
             c = op["ctx"]
@@ -364,7 +371,7 @@ class SourceSemantics:
                 raise SemanticsError("label inside with block")
             if inner["k"] == "op" and inner.get("ctx"):
                 raise SemanticsError("inline ctx inside with block")
-            n = self.simple(inner, k, env)
+            n = self._op_nodes(inner, k, in_ctx=True) if inner["k"] == "op" else self.simple(inner, k, env)
             return g.new("op", (T.CTX_OPS[s["type"]], (self._val(s["val"]),)), [n])
         if kind == "if":
             clauses = [(s.get("not", False), s["conds"], s["body"])] + [
